@@ -114,7 +114,7 @@ class Interp:
         self.prefix = list(prefix); self.decisions = []; self.pc = []; self.fresh = 0
         self.pending = []
         self.solver.reset()
-        self.depth = 0; self.steps = 0
+        self.depth = 0; self.steps = 0; self.nbranch = 0
         self.notes = []          # free-form per-path notes from models (witness tags etc.)
         self.path_state = {}     # per-path scratch for models
         self.statics_path = {}
@@ -158,6 +158,8 @@ class Interp:
         if z3.is_true(cond): return True
         if z3.is_false(cond): return False
         k = len(self.decisions)
+        self.nbranch += 1
+        if self.nbranch > self.params.get('max_decisions', 1 << 30): raise PathEnd('bound', 'more than max_decisions solver-decided branches on one path')
         if k < len(self.prefix):
             d = self.prefix[k]
             if not isinstance(d, bool): raise Unsupported('decision stream misaligned (branch)')
@@ -277,6 +279,13 @@ class Interp:
             trait = norm(m.group(2)); targ = norm(m.group(3) or '')
             c = self.impl_index.get((('&' if isref else '') + selfty, trait, m.group(4)), [])
             exact = [b for t, b in c if (t or '') == trait + targ or (not targ and (t or '') in (trait, trait + '<' + selfty + '>', trait + '<Self>'))]
+            if len(exact) > 1:
+                # same type name in several modules (compound::Display, unit::Display, ..): use the module path of the callee
+                raw = re.sub(r'<.*$', '', re.sub(r"^&(?:'\w+ )?(?:mut )?", '', m.group(1).strip()))
+                if '::' in raw:
+                    mod = raw.rsplit('::', 1)[0]
+                    byMod = [b for b in exact if b.name.split('::<impl')[0].endswith(mod)]
+                    if byMod: exact = byMod
             return exact or ([b for t, b in c] if len(c) == 1 else [])
         m = re.match(r'^([\w:]+?)(?:::<[^()]*>)?::(\w+)(?:::<.*>)?$', callee)
         if m:
